@@ -282,6 +282,7 @@ struct Exec<'a> {
     library_lineage: bool,
     foreign: bool,
     limits: bool,
+    script: bool,
     cur_id: u32,
     done: bool,
     any_hard_fault: bool,
@@ -433,6 +434,11 @@ impl<'a> Exec<'a> {
                 }
                 if self.limits && !inv {
                     checks.push("C20.saved-unreadable");
+                }
+                if self.script && !inv && phase != Phase::Now {
+                    // "whenever a flush or hand-back returns success after calls that all
+                    // returned success, the medium reopens to that state" - faults or not
+                    checks.push("C15.ok-but-lost");
                 }
             }
             for c in checks {
@@ -1096,6 +1102,9 @@ impl<'a> Exec<'a> {
                     }
                     if self.limits {
                         self.viol("C20.saved-unreadable", "open", m.clone());
+                    }
+                    if self.script {
+                        self.viol("C15.ok-but-lost", "open", m.clone());
                     }
                     // nothing is "the same after saving and reopening" in a
                     // file that does not reopen
@@ -1761,6 +1770,7 @@ pub fn run(trace: &Trace, cfg: &ExecCfg) -> RunResult {
         library_lineage: !foreign,
         foreign,
         limits,
+        script: trace.profile == "script",
         cur_id: 0,
         done: false,
         any_hard_fault: false,
